@@ -134,7 +134,7 @@ fn tpl(t: &str, subs: &[(&str, &str)]) -> String {
 const WORDS: [&str; 10] = ["Foo", "Bar", "Http", "Request", "Id", "Version", "Two", "Ab", "Left", "Nothing"];
 const EXTRA: [&str; 5] = ["Alpha", "Beta", "Gamma", "Delta", "Omega"];
 const KEYWORDS: [&str; 4] = ["type", "match", "fn", "loop"];
-const FIELD_NAMES: [&str; 4] = ["x", "y", "value", "r#fn"];
+const FIELD_NAMES: [&str; 4] = ["x", "r#type", "y", "value"];
 
 /// What the expansion of the same tree (in-process) declares: method names and `TryFrom` impl headers.
 #[derive(Default, Debug)]
@@ -325,7 +325,7 @@ fn gen_model(d: &mut Dice) -> Model {
     }
     let has_ti = derives.contains(&3);
     let nv = 1 + d.weighted(&[2, 4, 5, 4, 2]);
-    let raw_at = if d.chance(4) { Some(d.pick(nv)) } else { None };
+    let raw_at = if d.chance(8) { Some(d.pick(nv)) } else { None };
     let mut vars: Vec<Var> = vec![];
     let pick_ty = |d: &mut Dice, ignored: bool| -> usize {
         let w: Vec<u32> = TYS
@@ -620,7 +620,9 @@ fn render(m: &Model) -> GenCase {
             let any_level = m.vars.iter().any(|v| v.level[k].as_ref().is_some_and(|l| !l.is_empty()));
             let any_bare = m.vars.iter().any(|v| v.level[k].as_ref().is_some_and(|l| l.is_empty()));
             let any_ignore = m.vars.iter().any(|v| v.ignore[k]);
-            let murky = any_level || (any_bare && any_ignore);
+            // (an enum-level attribute switches every un-annotated variant on again, so together with it the bare
+            // opt-in form selects nothing: undocumented interplay, treated like the other unclear combinations)
+            let murky = any_level || (any_bare && (any_ignore || m.enum_level[k].is_some()));
             let enabled = |v: &Var| -> bool {
                 if any_bare {
                     v.level[k].is_some()
